@@ -29,6 +29,23 @@ theorem runProto_inv {P : State → Prop} (hB : ∀ p, P p → P (stepB p)) (hG 
     unfold runProto
     exact runProto_inv hB hG rest _ (hG p h)
 
+/-- Follow a schedule and stop there (no running to the end): the states a run passes through. -/
+def runSteps : Schedule → State → State
+  | [], p => p
+  | false :: rest, p => runSteps rest (stepB p)
+  | true :: rest, p => runSteps rest (stepG p)
+
+/-- Whatever both step functions preserve holds at every point of every run. -/
+theorem runSteps_inv {P : State → Prop} (hB : ∀ p, P p → P (stepB p)) (hG : ∀ p, P p → P (stepG p)) :
+    ∀ (sched : Schedule) p, P p → P (runSteps sched p)
+  | [], p, h => h
+  | false :: rest, p, h => by
+    unfold runSteps
+    exact runSteps_inv hB hG rest _ (hB p h)
+  | true :: rest, p, h => by
+    unfold runSteps
+    exact runSteps_inv hB hG rest _ (hG p h)
+
 /-! ### `newestId`, `hasBand` -/
 
 theorem newestId_none {bs : List Band} : newestId bs = none ↔ bs = [] := by
